@@ -656,10 +656,12 @@ impl<Context: ServerContext> ApiDescription<Context> {
         openapi.openapi = "3.0.3".to_string();
         openapi.info = info;
 
-        // Gather up the ad hoc tags from endpoints
+        // Gather up the ad hoc tags from the endpoints that appear in the
+        // document (unpublished endpoints are omitted from it, tags and all)
         let endpoint_tags = self
             .router
             .endpoints(Some(version))
+            .filter(|(_, _, endpoint)| endpoint.visible)
             .flat_map(|(_, _, endpoint)| {
                 endpoint
                     .tags
